@@ -141,6 +141,26 @@ def judge(site, opts, res, rows, log, part, replay):
                 if acc and link['target'] not in rowmap:
                     part.violation('in-scope-link-not-recorded/{}/{}/{}'.format(link['spelling'], link['kind'], cls),
                                    {'parent': url, 'link': link, 'derived_record': rec}, replay)
+    # --- recorded link metadata must describe a real discovery: root = the start URL, parent = a fetched page that
+    #     serves a link to this URL, level = parent's level + 1
+    for url, row in rowmap.items():
+        if url == site.start:
+            continue
+        problems = []
+        if row['root'] != site.start:
+            problems.append('root')
+        parent = rowmap.get(row['parent'])
+        ppage = site.pages.get(row['parent'])
+        if ppage is not None and ppage.kind == 'redirect':
+            ppage = site.pages.get(ppage.location[1])
+        if parent is None or ppage is None or not any(l['target'] == url for l in ppage.links):
+            problems.append('parent')
+        elif row['level'] != parent['level'] + 1:
+            problems.append('level')
+        if problems:
+            part.violation('row-metadata-wrong/' + '+'.join(problems), {'row': row, 'start': site.start}, replay)
+        else:
+            part.count('row_metadata_consistent')
     # --- a-priori closure where it is order independent (level unbounded)
     if not opts['level']:
         expected = closure(site, ropts, start_hosts)
@@ -193,7 +213,7 @@ def nontrivial_key(site, opts):
 
 def build_site(case):
     rng = random.Random(case['site_seed'])
-    return sitegen.generate(rng, n_pages=case.get('n_pages'), redirects=case.get('redirects', True))
+    return sitegen.generate(rng, n_pages=case.get('n_pages'), redirects=case.get('redirects', True), junk_links=True)
 
 
 def worker(job):
